@@ -119,11 +119,7 @@ class EOFBootstrapper(_BaseBootstrapper, EOF):
         # for a given mode with all the individual bootstrap members
         # NOTE: we use scores as they have typically a lower dimensionality than components
         model_scores = model.data["scores"]
-        corr = (
-            (bst_scores * model_scores).mean(sample_name)
-            / bst_scores.std(sample_name)
-            / model_scores.std(sample_name)
-        )
+        corr = xr.corr(bst_scores, model_scores, dim=sample_name)
         signs = np.sign(corr)
         bst_components = bst_components * signs
         bst_scores = bst_scores * signs
